@@ -49,6 +49,8 @@ type c07cfg struct {
 	pWriteErr, pReadErr          int
 	pSilence, pGarbage, pPeerClose, pCloseAfter int
 	pDelay   int
+	pDup, pRunt int
+	handoff  bool // family: many back-to-back calls on a non-pipelined transport with a very long idle timeout
 	ctxMode  []int // per caller: 0 unbounded, 1 deadline, 2 cancel
 	closeAt  time.Duration // 0 = after all callers returned
 	maxCQ    int
@@ -84,6 +86,8 @@ func c07Setup(rc *RunCtx) simrt.Config {
 		c.pPeerClose = pick(0, 0, 20)
 		c.pCloseAfter = pick(0, 0, 20)
 		c.pDelay = pick(0, 50)
+		c.pDup = pick(0, 0, 30)
+		c.pRunt = pick(0, 0, 25)
 	}
 	for i := 0; i < c.callers; i++ {
 		c.perCall = append(c.perCall, 1+r.Choose(3))
@@ -109,6 +113,24 @@ func c07Setup(rc *RunCtx) simrt.Config {
 		c.kind = []TransportKind{TkPipelineStream, TkPipelineDgram}[r.Choose(2)]
 		c.mute, c.closeAt = false, 0
 	}
+	if !c.exhaust && !c.mute && r.Choose(12) == 0 {
+		// connections change hands between callers all the time while the server
+		// is silent on part of the queries and the idle timeout is very long: the
+		// per-query liveness deadline must be in force on every one of them
+		c.handoff = true
+		c.kind = []TransportKind{TkReuse, TkTCP}[r.Choose(2)]
+		c.callers = 3 + r.Choose(4)
+		c.perCall, c.ctxMode = nil, nil
+		for i := 0; i < c.callers; i++ {
+			c.perCall = append(c.perCall, 2+r.Choose(3))
+			c.ctxMode = append(c.ctxMode, 0)
+		}
+		c.idle = 10 * time.Minute
+		c.pSilence, c.pGarbage, c.pPeerClose, c.pCloseAfter, c.pDelay = 30, 0, 0, 0, 0
+		c.pDialErr, c.pDialHang, c.pWriteErr, c.pReadErr = 0, 0, 0, 0
+		c.closeAt = 0
+	}
+	rc.Cfg["handoff"] = c.handoff
 	c.pinger = c.mute && c.kind.pipelined() && !c.exhaust && r.Choose(2) == 0
 	if c.pinger {
 		c.closeAt = 0
@@ -158,6 +180,12 @@ func c07Main(rc *RunCtx) {
 		}
 		if simrt.Choose(100) < c.pDelay {
 			a.Delay = []time.Duration{time.Millisecond, 300 * time.Millisecond, 2 * time.Second}[simrt.Choose(3)]
+		}
+		if c.kind.pipelined() && simrt.Choose(100) < c.pDup {
+			a.Dup = 1 + simrt.Choose(2) // duplicate replies (as a UDP resend provokes), back to back
+		}
+		if !sc.Stream && c.pRunt > 0 && simrt.Choose(100) < c.pRunt {
+			a.Runt = true // a datagram shorter than a DNS header (down to zero bytes) before the reply
 		}
 		return a
 	}
@@ -364,8 +392,11 @@ func c07Post(rc *RunCtx, res simrt.Result) {
 	if w == nil {
 		return
 	}
-	if res.End == simrt.EndStepCap {
-		return // the run was cut by the simulator's step budget: says nothing (counted as inconclusive)
+	if res.End == simrt.EndStepCap && c.exhaust {
+		// more than 100 tasks: a run of this family that is cut by the simulator's
+		// step budget says nothing (counted as inconclusive). Elsewhere the budget
+		// is far above what a run needs, and burning it is a livelock.
+		return
 	}
 	for _, x := range w.Calls {
 		if !x.Started {
